@@ -7,6 +7,7 @@ import (
 	"hash/fnv"
 	"os"
 	"path/filepath"
+	"runtime"
 	"sort"
 	"strconv"
 	"sync"
@@ -109,6 +110,7 @@ type Collector struct {
 
 	curStart atomic.Int64 // unix nanos of the running case, 0 when idle
 	curDesc  atomic.Value // func() string
+	curHang  atomic.Value // func() *Violation
 	journal  *os.File
 	hung     bool
 }
@@ -206,6 +208,15 @@ func (s *Sub) Note(format string, a ...any) {
 // Begin marks the start of a case for the hang watchdog; desc is only called if the case hangs.
 func (c *Collector) Begin(desc func() string) {
 	c.curDesc.Store(desc)
+	c.curHang.Store((func() *Violation)(nil))
+	c.curStart.Store(time.Now().UnixNano())
+}
+
+// BeginV is Begin for cases in which a hang (or a memory blow-up) is itself a
+// violation of the property: onHang builds the violation record.
+func (c *Collector) BeginV(desc func() string, onHang func() *Violation) {
+	c.curDesc.Store(desc)
+	c.curHang.Store(onHang)
 	c.curStart.Store(time.Now().UnixNano())
 }
 
@@ -230,7 +241,10 @@ func (c *Collector) Journal(b []byte) {
 }
 
 // HangBudget is how long one case may run before the worker gives up on it.
-var HangBudget = 120 * time.Second
+var HangBudget = 60 * time.Second
+
+// MemBudget is how large the heap may grow during one case.
+var MemBudget uint64 = 3 << 30
 
 func (c *Collector) watchdog() {
 	for {
@@ -239,10 +253,29 @@ func (c *Collector) watchdog() {
 		if st == 0 {
 			continue
 		}
-		if time.Since(time.Unix(0, st)) > HangBudget {
+		var ms runtime.MemStats
+		runtime.ReadMemStats(&ms)
+		blowup := ms.HeapAlloc > MemBudget
+		if blowup || time.Since(time.Unix(0, st)) > HangBudget {
 			desc := "?"
 			if f, ok := c.curDesc.Load().(func() string); ok && f != nil {
 				desc = f()
+			}
+			if blowup {
+				desc = fmt.Sprintf("heap grew to %d MiB: %s", ms.HeapAlloc>>20, desc)
+			}
+			if f, ok := c.curHang.Load().(func() *Violation); ok && f != nil {
+				if v := f(); v != nil {
+					v.Message = "did not return (" + desc + "): " + v.Message
+					c.inRapid = false
+					if c.Report(*v) == nil {
+						// a listed known finding: the worker still cannot continue past a hung case
+						desc = "known finding, worker stopped: " + desc
+					} else {
+						c.write("")
+						os.Exit(3)
+					}
+				}
 			}
 			c.mu.Lock()
 			c.hung = true
@@ -270,7 +303,12 @@ func (c *Collector) Report(v Violation) *Violation {
 		c.pending = &vv
 		return &vv
 	}
-	if len(c.viol) < 20 {
+	for _, old := range c.viol {
+		if old.Check == v.Check && old.Sig == v.Sig {
+			return &v // one (minimal-so-far) witness per signature is enough
+		}
+	}
+	if len(c.viol) < 60 {
 		c.viol = append(c.viol, v)
 	}
 	return &v
